@@ -123,6 +123,7 @@ def frag_tree(rng, depth):
         return ('q', kids)
     mk = rng.choice(['-', '+', '*', '1.', '7)', '12.', '123456789)', '0.'])
     items = [(mk, rng.randint(1, 4), kids)]
+    mode = rng.choice(['blank', 'tight', 'mixed'])     # between two items of one list: a blank line, nothing, or either
     while rng.random() < 0.4 and len(items) < 4:                      # more items of the same list, each after a blank line (leaf-ward: FMore)
         mk2 = mk if len(mk) == 1 else str(rng.choice([0, 1, 2, 7, 10, 99, 123456789])) + mk[-1]
         kids2 = [frag_tree(rng, depth - 1) for _ in range(rng.randint(1, 2))]
@@ -132,7 +133,7 @@ def frag_tree(rng, depth):
     for (m, pad, ks) in reversed(items):
         if ks[0][0] == 'r' and m in '-*' and ks[0][1][0] == m:        # `- ---` would be a thematic break as a whole
             ks[0] = ('r', ('_' if m == '-' else '-') * len(ks[0][1]))
-        t = ('i', m, pad, ks) if t is None else ('m', m, pad, ks, t)
+        t = ('i', m, pad, ks) if t is None else ('m', m, pad, ks, t, mode == 'blank' or (mode == 'mixed' and rng.random() < 0.5))
     return t
 
 
@@ -186,7 +187,7 @@ def frag_gallina(t):
     kids = '[' + '; '.join(frag_gallina(k) for k in t[3]) + ']'
     mk = '(MBullet %d)' % ord(t[1]) if len(t[1]) == 1 else '(MOrdered %s %d)' % (_zl(t[1][:-1]), ord(t[1][-1]))
     if t[0] == 'm':
-        return '(FMore %s %d %s %s)' % (mk, t[2], kids, frag_gallina(t[4]))
+        return '(FMore %s %d %s %s %s)' % (mk, t[2], kids, 'true' if t[5] else 'false', frag_gallina(t[4]))
     return '(FItem %s %d %s)' % (mk, t[2], kids)
 
 
@@ -249,7 +250,7 @@ def frag_spell(t):
         return ['> ' + l for l in inner]
     w = len(t[1]) + t[2]
     item = [t[1] + ' ' * t[2] + inner[0]] + [(' ' * w + l) if l else '' for l in inner[1:]]
-    return item + [''] + frag_spell(t[4]) if t[0] == 'm' else item
+    return item + ([''] if t[5] else []) + frag_spell(t[4]) if t[0] == 'm' else item
 
 
 def frag_expect(t, ln):
@@ -286,12 +287,12 @@ def frag_expect(t, ln):
     while True:
         ds, ls = seq(node[3], cur)
         last = node[0] == 'i'
-        loose = len(node[3]) > 1 if last else True
+        loose = len(node[3]) > 1 or (not last and node[5])
         items.append([trees.TAGS['ListItem'], node[1], 0, len(node[1]) + node[2], loose, ds])
         lines += [cur] + ls
         if last:
             break
-        cur += len(frag_spell(('i',) + tuple(node[1:4]))) + 1
+        cur += len(frag_spell(('i',) + tuple(node[1:4]))) + (1 if node[5] else 0)
         node = node[4]
     start = [] if len(t[1]) == 1 else [int(t[1][:-1])]
     return [trees.TAGS['List'], start, any(i[4] for i in items), items], lines
@@ -317,13 +318,15 @@ def frag_html(t, tight):
         return '<blockquote>\n' + '\n'.join(frag_html(k, False) for k in t[1]) + '\n</blockquote>'
     kids = t[3]
     tg = len(kids) <= 1
-    if t[0] == 'm':                        # several items: a loose list
-        lis, node = [], t
+    if t[0] == 'm':                        # several items: loose if an item holds two blocks or a blank line separates two items
+        nodes, node = [], t
         while True:
-            lis.append('<li>\n' + '\n'.join(frag_html(k, False) for k in node[3]) + '\n</li>')
+            nodes.append(node)
             if node[0] == 'i':
                 break
             node = node[4]
+        tgl = not any(len(nd[3]) > 1 or (nd[0] == 'm' and nd[5]) for nd in nodes)
+        lis = ['<li>' + ('' if tgl and nd[3][0][0] in 'pe' else '\n') + '\n'.join(frag_html(k, tgl) for k in nd[3]) + ('' if tgl and nd[3][-1][0] in 'pe' else '\n') + '</li>' for nd in nodes]
         if len(t[1]) == 1:
             return '<ul>\n' + '\n'.join(lis) + '\n</ul>'
         n = int(t[1][:-1])
